@@ -196,7 +196,7 @@ pub fn run(args: &Args) -> i32 {
   if let Some(file) = &args.replay { return replay(args, prop, file, rep); }
   let quick = args.tier == Tier::Quick;
   let mut cfg = HistCfg {
-    prop, max_roots: 2, bottom_up: true, bu_then: false, bu_pre: false, bu_over_report: false, bu_twice: false, set_fail: false, crashes: 0,
+    prop, max_roots: 2, bottom_up: true, bu_then: false, bu_pre: false, bu_over_report: false, bu_twice: false, keep_session: false, set_fail: false, crashes: 0,
     depth: 0, state_cap: 0, probe: false, scope_in_key: true,
     wall_cap: if quick { 45.0 } else { 2400.0 }, collect_digests: false, find_path_hash: None, stamp_fail: false,
   };
@@ -263,6 +263,7 @@ pub fn run(args: &Args) -> i32 {
     }
     Prop::C05 | Prop::C06 | Prop::C07 | Prop::C20 => {
       slice = Slice::WfOrViol; crash_group = true;
+      if prop == Prop::C20 { cfg.keep_session = true; }
       if quick { groups[0].depth = 4; }
       // injected violations: one new one-statement task added to every well-formed generator/consumer program
       groups.push(Group { enums: vec![s(2, 2, if quick { 3 } else { 4 })], depth: 4, shapes: true, gen_consumer_only: true, crashes: 0, inject: true, max_roots: None, faulty: false, slice: None });
@@ -300,6 +301,7 @@ pub fn run(args: &Args) -> i32 {
     Prop::C18 => { cfg.set_fail = true; map_faulty = true; }
     Prop::C19 => {
       slice = Slice::WfOrViolOrPanic;
+      cfg.keep_session = true;
       let ncr = if quick { 1 } else { 2 };
       let mut e = EnumCfg::structural(2, 1, if quick { 3 } else { 4 });
       e.panic_op = true;
@@ -438,7 +440,7 @@ fn replay(args: &Args, prop: Prop, file: &std::path::Path, mut rep: Report) -> i
     .iter().map(|e| PEvent::from_json(e).unwrap_or_else(|e| engine_error(&format!("replay event: {}", e)))).collect();
   let class = classify(&prog);
   let cfg = HistCfg {
-    prop, max_roots: 3, bottom_up: true, bu_then: true, bu_pre: true, bu_over_report: true, bu_twice: true, set_fail: true, crashes: 2, depth: path.len(),
+    prop, max_roots: 3, bottom_up: true, bu_then: true, bu_pre: true, bu_over_report: true, bu_twice: true, keep_session: true, set_fail: true, crashes: 2, depth: path.len(),
     state_cap: 0, probe: prop == Prop::C03, scope_in_key: true, wall_cap: 60.0, collect_digests: false, find_path_hash: None, stamp_fail: false,
   };
   install();
